@@ -204,6 +204,14 @@ func (a *Agent) handleICMPOpenAck(peerID identity.AgentID, frame *protocol.Frame
 	a.icmpIngressMu.RUnlock()
 
 	if ingress != nil {
+		// The open handshake completes exactly once: a duplicated or replayed
+		// ICMP_OPEN_ACK must not derive and install another session key.
+		select {
+		case <-ingress.PendingOpen:
+			return
+		default:
+		}
+
 		ack, err := protocol.DecodeICMPOpenAck(frame.Payload)
 		if err != nil {
 			ingress.closePendingOpen(err)
@@ -233,6 +241,13 @@ func (a *Agent) handleICMPOpenAck(peerID identity.AgentID, frame *protocol.Frame
 
 	if wsSession == nil {
 		return
+	}
+
+	// Same for WebSocket-initiated sessions: only the first ACK counts.
+	select {
+	case <-wsSession.PendingOpen:
+		return
+	default:
 	}
 
 	ack, err := protocol.DecodeICMPOpenAck(frame.Payload)
